@@ -214,7 +214,7 @@ def run_property(spec, tier: str, only: str | None = None, jobs: int = 16):
             twin_info[tw] = rt["status"]
             if rt["status"] != "cex":
                 twin_ok = False
-                twin_info[tw] += ": " + (rt.get("detail") or "")[:200]
+                twin_info[tw] += ": " + (rt.get("detail") or "")[:120]
         entry["twins"] = twin_info
         if not o.optional:
             n_required += 1
@@ -319,7 +319,7 @@ def run_property(spec, tier: str, only: str | None = None, jobs: int = 16):
     for e in report:
         print(f"[{pid}] {e['obligation']:<44} {e['verdict']:<28} paths={e.get('paths')} t={e.get('wall_s')}s twins={e['twins']}")
         if e["verdict"].startswith("inconclusive") or e["verdict"] == "VIOLATION":
-            print("      ", e.get("detail"), e.get("cex", ""), e.get("replay", ""))
+            print("      ", (e.get("detail") or "")[:300], e.get("cex", ""), e.get("replay", ""))
     seen = set()
     for key, desc, obname in known_hits:
         if key in seen:
@@ -337,7 +337,7 @@ def run_property(spec, tier: str, only: str | None = None, jobs: int = 16):
         return EXIT_VIOLATION
     if harness_errors:
         for h in harness_errors:
-            print("HARNESS-ERROR:", h, file=sys.stderr)
+            print("HARNESS-ERROR:", h[:300], file=sys.stderr)
         return EXIT_HARNESS
     return EXIT_OK
 
